@@ -82,11 +82,29 @@ int main(int argc, char ** argv)
       }
     }
   }
+  // covariance' = J cov J^T must at least be symmetric for a symmetric (fully correlated) input covariance
+  {
+    Eigen::Affine3d A = Eigen::Affine3d::Identity();
+    A.linear() = eulerAnglesToRotation3D(Eigen::Vector3d(0.5, -0.3, 0.9)); A.translation() = Eigen::Vector3d(1.5, -2.0, 0.7);
+    Pose3D p; p.position = Eigen::Vector3d(1, 2, 3); p.orientation = Eigen::Vector3d(0.3, 0.2, 0.1);
+    Eigen::Matrix<double, 6, 6> L; for (int i = 0; i < 6; ++i) for (int j = 0; j < 6; ++j) L(i, j) = 0.1 * ((i * 7 + j * 3) % 11) - 0.4 + (i == j ? 1.0 : 0.0);
+    p.covariance = L * L.transpose();
+    Pose3D r = A * p;
+    for (int i = 0; i < 6; ++i) for (int j = 0; j < i; ++j)
+      if (std::fabs(r.covariance(i, j) - r.covariance(j, i)) > 1e-9 * (1 + std::fabs(r.covariance(i, j)))) {
+        char name[64]; snprintf(name, sizeof name, "pose_transform.covariance[%d,%d]", i, j);
+        if (bad.insert(name).second && printed++ < 90) printf("FAILING-INPUT: %s: fully correlated covariance L L^T: covariance'(%d,%d) = %.9g but covariance'(%d,%d) = %.9g (J cov J^T is symmetric)\n", name, i, j, r.covariance(i, j), j, i, r.covariance(j, i));
+      }
+  }
   if (bad.empty()) { printf("no failing input found: all derivative entries agree with finite differences of R()\n"); return 0; }
   if (!want.empty()) {
     std::string key = want.substr(0, want.find('.'));
     if (want.find("is_derivative_of_R") != std::string::npos || want.find("dRTdAngles") != std::string::npos)
       return bad.count(key) ? 1 : 0;
+    if (want.find("pose_transform.covariance[") != std::string::npos) {
+      for (auto & n : bad) if (n.find("pose_transform.covariance[") != std::string::npos) return 1;
+      return 0;
+    }
     if (want.find("pose_transform.J[") != std::string::npos)
       return bad.count(want.substr(want.find("pose_transform.J["), want.find(']') - want.find("pose_transform.J[") + 1)) ? 1 : 0;
   }
